@@ -22,18 +22,32 @@ func genC29(seed uint64, tier string) *Case {
 	g := NewRng(seed)
 	c := &Case{P: map[string]int64{"mode": int64(g.Intn(2)), "writers": int64(1 + g.Intn(4)), "lines": int64(1 + g.Intn(4)),
 		"policy": int64(g.Intn(4)), "ring": int64(g.Pick(1, 2, 8, 512)), "monitors": int64(1 + g.Intn(3)), "flushAfter": int64(g.Intn(4))}}
+	// the underlying output reports an error for one of the lines handed to it (a transient
+	// I/O error): the line was handed over, and so must every other line be
+	c.P["failAt"] = -1
+	if g.Bool(0.3) {
+		c.P["failAt"] = int64(g.Intn(int(c.P["writers"]*c.P["lines"])))
+	}
+	// a monitor that is attached a second time while still attached stays attached once
+	c.P["reattach"] = int64(g.Intn(2))
 	return c
 }
 
 // recWriter is the underlying output: records every Write, one scheduling point
 // per call so that concurrent writers interleave.
 type recWriter struct {
-	lines []string
+	lines  []string
+	failAt int // the write with this index reports an error (after taking the line)
+	failed int
 }
 
 func (w *recWriter) Write(p []byte) (int, error) {
 	vsched.YieldAt("underlying-write")
 	w.lines = append(w.lines, string(p))
+	if len(w.lines)-1 == w.failAt {
+		w.failed++
+		return 0, fmt.Errorf("simulated transient output error")
+	}
 	return len(p), nil
 }
 
@@ -55,7 +69,10 @@ func execC29(r *Run) {
 func c29Gated(r *Run) {
 	b := newBRun(r, false)
 	defer b.finish()
-	under := &recWriter{}
+	under := &recWriter{failAt: -1}
+	if v, ok := r.C.P["failAt"]; ok {
+		under.failAt = int(v)
+	}
 	gw := &agent.GatedWriter{Writer: under}
 	nw, nl := int(r.C.P["writers"]), int(r.C.P["lines"])
 	seq := 0
@@ -96,6 +113,9 @@ func c29Gated(r *Run) {
 		return
 	}
 	r.Fault("gate-opens-among-writers")
+	if under.failed > 0 {
+		r.Fault("underlying-write-error")
+	}
 	pos := map[string][]int{}
 	for i, l := range under.lines {
 		pos[l] = append(pos[l], i)
@@ -171,6 +191,12 @@ func c29LogWriter(r *Run) {
 			seq++
 			mo.end = seq
 			mons = append(mons, mo)
+			if r.C.P["reattach"] == 1 {
+				for i := 0; i <= m; i++ {
+					vsched.YieldAt("reattach-wait")
+				}
+				lw.RegisterHandler(mo.h)
+			}
 		}))
 	}
 	if err := b.run(tasks, 100000); err != nil {
@@ -178,6 +204,9 @@ func c29LogWriter(r *Run) {
 		return
 	}
 	r.Fault("monitor-attaches-among-writers")
+	if r.C.P["reattach"] == 1 {
+		r.Fault("monitor-attached-twice")
+	}
 	L := sentinel.lines
 	if len(L) != nw*nl {
 		r.Fail("line-not-exactly-once", "C29 monitor-lines", "the always-attached monitor saw %d lines, %d were written: %q", len(L), nw*nl, L)
